@@ -118,7 +118,7 @@ func getWorld(c caseA) (*world, string, error) {
 func runA(c caseA) error { _, err := execA(c); return err }
 
 type stats struct {
-	CompletedMulti, AfterReupload, SameKeyUploads int
+	CompletedMulti, AfterReupload, SameKeyUploads, RefusedCreates int
 }
 
 func execA(c caseA) (st stats, err error) {
@@ -192,6 +192,26 @@ func execA(c caseA) (st stats, err error) {
 				}
 			}
 			ups = append(ups, &upload{ID: ini.UploadId, Key: o.Key % len(keyNames), Meta: o.Meta, Parts: map[int]*part{}})
+		case "badcreate":
+			// an initiation the gateway cannot grant (the bucket has no object lock; the checksum algorithm does not
+			// exist; the metadata does not fit): whether refused or granted, the key's other uploads are none of its business
+			hdr := [][]s3c.KV{
+				{{K: "x-amz-object-lock-legal-hold", V: "ON"}},
+				{{K: "x-amz-object-lock-mode", V: "GOVERNANCE"}, {K: "x-amz-object-lock-retain-until-date", V: "2033-01-01T00:00:00Z"}},
+				{{K: "x-amz-checksum-algorithm", V: "CRC99"}},
+				{{K: "x-amz-meta-huge", V: strings.Repeat("v", 70000)}},
+				{{K: "x-amz-tagging", V: "a=b&a=c"}},
+			}[o.Seed%5]
+			r, err := cl.Call("POST", path(o.Key), s3c.Q("uploads", ""), append([]s3c.KV{{K: "x-amz-meta-origin", V: o.Meta}}, hdr...), nil)
+			if err != nil {
+				return st, fmt.Errorf("SETUP: transport: %v", err)
+			}
+			var ini s3c.InitiateResult
+			if r.OK() && s3c.ParseXML(r, &ini) == nil && ini.UploadId != "" {
+				ups = append(ups, &upload{ID: ini.UploadId, Key: o.Key % len(keyNames), Meta: o.Meta, Parts: map[int]*part{}})
+			} else {
+				st.RefusedCreates++
+			}
 		case "put": // a plain object on the key (so that "replaced" can be observed)
 			data := body(o.Seed, o.Size%4096)
 			r := cl.MustCall("PUT", path(o.Key), nil, []s3c.KV{{K: "x-amz-meta-origin", V: "plain"}}, data)
@@ -591,10 +611,13 @@ func parseRange(s string, size int) (lo, hi int, ok bool) {
 func opGen() *rapid.Generator[op] {
 	return rapid.Custom(func(t *rapid.T) op {
 		var o op
-		o.Kind = rapid.SampledFrom([]string{"create", "create", "part", "part", "part", "part", "partcopy", "listparts", "listuploads", "complete", "complete", "abort", "get", "list", "put"}).Draw(t, "kind")
+		o.Kind = rapid.SampledFrom([]string{"create", "create", "part", "part", "part", "part", "partcopy", "listparts", "listuploads", "complete", "complete", "abort", "get", "list", "put", "badcreate"}).Draw(t, "kind")
 		o.Key = rapid.IntRange(0, 2).Draw(t, "key")
 		o.Upload = rapid.IntRange(0, 3).Draw(t, "upload")
 		switch o.Kind {
+		case "badcreate":
+			o.Meta = "u-bad"
+			o.Seed = rapid.Uint64Range(0, 4).Draw(t, "bad_create")
 		case "create":
 			o.Meta = rapid.SampledFrom([]string{"u-a", "u-b", "u-c", "u-d"}).Draw(t, "meta")
 		case "part", "partcopy":
@@ -763,6 +786,9 @@ func TestC08A(t *testing.T) {
 		}
 		if st.SameKeyUploads > 0 {
 			cls = append(cls, "two-uploads-same-key")
+		}
+		if st.RefusedCreates > 0 {
+			cls = append(cls, "refused-initiation")
 		}
 		if len(cls) == 0 {
 			cls = []string{"plain"}
